@@ -32,20 +32,21 @@ class Spec:
     seq: Tuple[Tuple[str, Tuple[str, ...]], ...] = ()   # "driver": commands run in order inside this one script, failures recorded not fatal
     fail_undeclared: bool = False       # the fail flag is read without declaring it as a dependency
     post: Tuple[str, ...] = ()          # dependencies requested AFTER the output was written (and redo-stamp has run)
+    bursts: bool = False                # (csum, stdout) the data reaches redo-stamp through a pipe in two bursts, the varying part in the second
     wreck: str = ""                     # the script replaces this directory (its target's parent) by a regular file before it writes its output
     redir: bool = False                 # the script redirects the stderr of its redo-ifchange calls into a file of its own
     sync: Tuple[Tuple[str, str, str], ...] = ()   # E2 only: (position start|mid|end, action wait|set, flag) -- scripts that wait for each other
 
     def subst(self, arg2: str) -> "Spec":
+        import dataclasses
         f = lambda s: s.replace("%", arg2)
         sel = None
         if self.sel:
             sel = (f(self.sel[0]), tuple((v, tuple(f(d) for d in ds)) for v, ds in self.sel[1]))
-        return Spec(self.kind, tuple(f(d) for d in self.deps), sel, tuple(f(d) for d in self.ifcreate),
-                    tuple(f(d) for d in self.ifcreate_raw),
-                    f(self.fail) if self.fail else None, self.out, self.proj, self.split, self.tag, self.noise,
-                    tuple((c, tuple(f(d) for d in ds)) for c, ds in self.seq), self.fail_undeclared,
-                    tuple(f(d) for d in self.post), self.wreck, self.redir, self.sync)
+        return dataclasses.replace(
+            self, deps=tuple(f(d) for d in self.deps), sel=sel, ifcreate=tuple(f(d) for d in self.ifcreate),
+            ifcreate_raw=tuple(f(d) for d in self.ifcreate_raw), fail=f(self.fail) if self.fail else None,
+            seq=tuple((c, tuple(f(d) for d in ds)) for c, ds in self.seq), post=tuple(f(d) for d in self.post))
 
 
 @dataclass
@@ -223,7 +224,11 @@ def script_text(spec: Spec, variant: int, dofile: str, gates: bool = False) -> s
         if spec.kind == "csum":
             # stdout variant of a checksummed node: emit, and stamp the same bytes
             L.append('printf "%s(%s)\\n" "$1" "$c"')
-            L.append('printf "%s(%s)\\n" "$1" "$c" | redo-stamp')
+            if spec.bursts:
+                # a generator that pauses: redo-stamp has read the first burst long before the second is written
+                L.append('{ printf "%s(" "$1"; sleep 0.3; printf "%s)\\n" "$c"; } | redo-stamp')
+            else:
+                L.append('printf "%s(%s)\\n" "$1" "$c" | redo-stamp')
         else:
             L.append('printf "%s(%s)\\n" "$1" "$c"')
     L.append('rvk e')
@@ -377,6 +382,11 @@ def curated() -> Dict[str, World]:
         {"top.do": [S(deps=["mid"], out="append")], "mid.do": [S(deps=["s"], out="append")]},
         ["top", "mid"], ["top", "mid"],
         prefixes=[[["ifchange", ["top"]], ["edit", "s", "1"]]])
+    W["csum-burst"] = World(   # the checksummed node's data reaches redo-stamp through a pipe, in two bursts
+        "csum-burst", {"s": V3},
+        {"top.do": [S(deps=["c"])], "c.do": [S(kind="csum", deps=["s"], bursts=True)]},
+        ["top", "c"], ["top", "c"],
+        prefixes=[[["ifchange", ["top"]], ["edit", "s", "2"]]])
     W["csum-append"] = World(   # a checksummed node that builds $3 by appending (C10: stale temporary output + redo-stamp)
         "csum-append", {"s": V3},
         {"top.do": [S(deps=["mid"])], "mid.do": [S(kind="csum", deps=["s"], out="append", proj=True)]},
